@@ -17,6 +17,7 @@ structure WF (k : KV) : Prop where
   acct : ∀ t ∈ k.newestFirst, t.inuse = sumSize t.slots
   fits : ∀ t ∈ k.newestFirst, ∀ s ∈ t.slots, s.r.size < k.tableSize ∧ s.r.key.length < 256
   tot : ∀ t ∈ k.newestFirst, t.inuse + t.garbage = t.off
+  layout : ∀ t ∈ k.newestFirst, t.Layout
 
 theorem disj_of_find_eq {a a' b b' : Table} (ha : ∀ h, a'.find h = a.find h) (hb : ∀ h, b'.find h = b.find h)
     (d : Disj a b) : Disj a' b' := by
@@ -71,6 +72,11 @@ theorem makeTable_wf (k : KV) (w : k.WF) : k.makeTable.WF := by
     rcases mem_demoted k t ht with h | ⟨hd, hh, rfl⟩
     · exact w.tot t (by simp [newestFirst, h])
     · exact w.tot hd (by simp [newestFirst, hh])
+  have hdem_lay : ∀ t ∈ k.demoted, t.Layout := by
+    intro t ht
+    rcases mem_demoted k t ht with h | ⟨hd, hh, rfl⟩
+    · exact w.layout t (by simp [newestFirst, h])
+    · exact w.layout hd (by simp [newestFirst, hh])
   have hdem_nrw : ∀ t ∈ k.demoted, t.state ≠ .rw := by
     intro t ht
     rcases mem_demoted k t ht with h | ⟨hd, hh, rfl⟩
@@ -86,7 +92,7 @@ theorem makeTable_wf (k : KV) (w : k.WF) : k.makeTable.WF := by
   rw [makeTable_eq]
   cases hp : pickLast isRecycled k.demoted with
   | none =>
-    refine ⟨hdem_re, ?_, ?_, hdem_nrw, ?_, hdem_off, ?_, ?_, ?_, ?_⟩
+    refine ⟨hdem_re, ?_, ?_, hdem_nrw, ?_, hdem_off, ?_, ?_, ?_, ?_, ?_⟩
     · simp only [Unique, newestFirst, Option.toList, List.cons_append, List.nil_append, List.pairwise_cons]
       exact ⟨fun b _ => disj_of_nil_left rfl, hdem_pw⟩
     · intro t ht; injection ht with ht; subst ht; rfl
@@ -115,12 +121,17 @@ theorem makeTable_wf (k : KV) (w : k.WF) : k.makeTable.WF := by
       rcases ht with rfl | ht
       · rfl
       · exact hdem_tot t ht
+    · intro t ht
+      simp only [newestFirst, Option.toList, List.cons_append, List.nil_append, List.mem_cons] at ht
+      rcases ht with rfl | ht
+      · simp [Table.Layout, Table.new]
+      · exact hdem_lay t ht
   | some q =>
     obtain ⟨t, rest⟩ := q
     obtain ⟨hm, hrec, hsub, hsl⟩ := pickLast_mem _ _ _ _ hp
     have he : t.slots = [] := hdem_re t hm hrec
     refine ⟨fun x hx => hdem_re x (hsub x hx), ?_, ?_, fun x hx => hdem_nrw x (hsub x hx), ?_,
-      fun x hx => hdem_off x (hsub x hx), ?_, ?_, ?_, ?_⟩
+      fun x hx => hdem_off x (hsub x hx), ?_, ?_, ?_, ?_, ?_⟩
     · simp only [Unique, newestFirst, Option.toList, List.cons_append, List.nil_append, List.pairwise_cons]
       exact ⟨fun b _ => disj_of_nil_left he, hdem_pw.sublist hsl⟩
     · intro x hx; injection hx with hx; subst hx; rfl
@@ -149,6 +160,11 @@ theorem makeTable_wf (k : KV) (w : k.WF) : k.makeTable.WF := by
       rcases hx with rfl | hx
       · exact hdem_tot t hm
       · exact hdem_tot x (hsub x hx)
+    · intro x hx
+      simp only [newestFirst, Option.toList, List.cons_append, List.nil_append, List.mem_cons] at hx
+      rcases hx with rfl | hx
+      · exact hdem_lay t hm
+      · exact hdem_lay x (hsub x hx)
 
 /-- after makeTable the head is empty-offset and as large as the configured table size -/
 theorem makeTable_head (k : KV) (w : k.WF) :
@@ -171,7 +187,7 @@ theorem makeTable_tableSize (k : KV) : k.makeTable.tableSize = k.tableSize := by
   rw [makeTable_eq]; cases pickLast isRecycled k.demoted <;> rfl
 
 theorem fork_wf (size : Nat) (idle : Int) : (KV.fork size idle).WF := by
-  refine ⟨by intro t ht; simp [fork] at ht, ?_, ?_, by intro t ht; simp [fork] at ht, ?_, by intro t ht; simp [fork] at ht, ?_, ?_, ?_, ?_⟩
+  refine ⟨by intro t ht; simp [fork] at ht, ?_, ?_, by intro t ht; simp [fork] at ht, ?_, by intro t ht; simp [fork] at ht, ?_, ?_, ?_, ?_, ?_⟩
   · simp [Unique, newestFirst, fork]
   · intro t ht; simp [fork] at ht; subst ht; rfl
   · intro t ht; simp [newestFirst, fork] at ht; subst ht; rfl
@@ -179,13 +195,14 @@ theorem fork_wf (size : Nat) (idle : Int) : (KV.fork size idle).WF := by
   · intro t ht; simp [newestFirst, fork] at ht; subst ht; simp [Table.new, sumSize]
   · intro t ht; simp [newestFirst, fork] at ht; subst ht; intro s hs; simp [Table.new] at hs
   · intro t ht; simp [newestFirst, fork] at ht; subst ht; rfl
+  · intro t ht; simp [newestFirst, fork] at ht; subst ht; simp [Table.Layout, Table.new]
 
 theorem empty_wf (size : Nat) (idle : Int) : (KV.empty size idle).WF := by
   refine ⟨by intro t ht; simp [empty] at ht, by simp [Unique, newestFirst, empty], by intro t ht; simp [empty] at ht,
     by intro t ht; simp [empty] at ht, by intro t ht; simp [newestFirst, empty] at ht,
     by intro t ht; simp [empty] at ht, by intro t ht; simp [newestFirst, empty] at ht,
     by intro t ht; simp [newestFirst, empty] at ht, by intro t ht; simp [newestFirst, empty] at ht,
-    by intro t ht; simp [newestFirst, empty] at ht⟩
+    by intro t ht; simp [newestFirst, empty] at ht, by intro t ht; simp [newestFirst, empty] at ht⟩
 
 end KV
 end Olric
